@@ -82,25 +82,22 @@ func (v *valInt) decode(dec decoder.Decoder) error {
 	_ = dec.Int16()
 	v.val = append(v.val, dec.Int32())
 
-	// Check for additional values
-	if vtag := dec.Byte(); vtag == v.tag {
+	// Check for additional values (1setOf): same tag, empty name
+	vtag := dec.Byte()
+	for vtag == v.tag {
 		//check name length
 		if l := dec.Int16(); l == 0 {
 			_ = dec.Int16()
 			v.val = append(v.val, dec.Int32())
+			vtag = dec.Byte()
 		} else {
-			//rewind buffer
-			dec.Seek(-3)
+			dec.Seek(-2) //Rewind name length
+			break
 		}
-	} else {
-		//rewind buffer
-		dec.Seek(-1)
 	}
-	if err := dec.LastError(); err != nil {
-		return err
-	}
+	dec.Seek(-1) //Rewind tag
 
-	return nil
+	return dec.LastError()
 }
 
 func (v *valStr) encode(buf decoder.EncoderType) {
@@ -193,6 +190,19 @@ func (v *valRangeInt) decode(dec decoder.Decoder) error {
 
 	v.low = dec.Int32()
 	v.high = dec.Int32()
+
+	// additional values (1setOf): same tag, empty name; only the first range is kept
+	vtag := dec.Byte()
+	for vtag == v.tag {
+		if l := dec.Int16(); l == 0 {
+			_ = dec.Data()
+			vtag = dec.Byte()
+		} else {
+			dec.Seek(-2) //Rewind name length
+			break
+		}
+	}
+	dec.Seek(-1) //Rewind tag
 
 	return dec.LastError()
 }
